@@ -4,7 +4,8 @@ From Coq Require Import String Ascii List NArith ZArith QArith Bool Lia.
 From Sylt Require Import Syntax.Resolved.
 From Sylt Require Sem.Values Sem.Runtime Sem.SyltSem.
 From Sylt Require Import Back.IR Back.Emit.
-From Sylt Require Import Pres.EmitAst Pres.EmitRel Pres.Names Pres.LuaFuel Pres.LuaEv Pres.Preamble Pres.SimDefs Pres.SimOps.
+From Sylt Require Import Pres.EmitAst Pres.EmitRel Pres.Names Pres.LuaFuel Pres.LuaEv Pres.Preamble.
+From Sylt Require Import Pres.SimDefs Pres.SimOps.
 From Sylt Require Import Lua.LuaAst Lua.LuaMap Lua.LuaNum Lua.LuaProofs Lua.LuaCore.
 Import ListNotations.
 Local Open Scope N_scope.
